@@ -266,6 +266,53 @@ void vf_harness(void) {
 )
 UNITS += [b64_group]   # decodeBase64 (loop contracts): not finishing yet, see below
 
+# one iteration of the decoding loop `while (*src) { ... }` on ANY next character and ANY loop state (i filled sextets, k[], dest):
+#  - the four whitespace characters are skipped: nothing but src changes ("also when the Base64 text is interleaved with whitespace")
+#  - a character of the RFC 4648 alphabet contributes exactly its 6-bit value, in order; the 4th completes a group of 3 bytes
+#  - every character advances src by one (the loop terminates at the NUL) and dest moves by 0 or 3
+b64_step = Unit(
+    'decodeBase64_step', 'C15',
+    cuts=[Cut('isspace', DEFS_H, r'^inline bool myisspace\(char c\)\s*$'),
+          Cut('inv', U, r'^static const byte base64_chars_inv\[\] =', kind='stmt'),
+          Cut('step', U, r'^\twhile \(\*src\)\s*', kind='body', nth=1, count=2)],
+    text=r'''
+#include "vf_base.h"
+#include "b64.h"
+static bool myisspace(char c) @@isspace@@
+@@inv@@
+byte nondet_u8(void); int nondet_int(void);
+void vf_harness(void) {
+  byte text[2]; text[0] = nondet_u8(); text[1] = 0; __CPROVER_assume(text[0] != 0);
+  byte c = text[0]; const byte* src = text;
+  byte k[4], k0[4]; for (int j = 0; j < 4; j++) { k[j] = nondet_u8(); __CPROVER_assume(k[j] < 64); k0[j] = k[j]; }
+  int i = nondet_int(); __CPROVER_assume(0 <= i && i <= 3); int i0 = i;
+  byte out[3]; byte* dest = out;
+  int v = nondet_int(); __CPROVER_assume(0 <= v && v < 64);
+  int once = 0;
+  while (!once++) @@step@@              /* (`continue` in the body ends the iteration) */
+  __CPROVER_assert(src == text + 1, "every character is consumed exactly once");
+  __CPROVER_assert(dest == out || dest == out + 3, "0 or 3 bytes per character");
+  if (c == ' ' || c == '\t' || c == '\n' || c == '\r')
+    __CPROVER_assert(i == i0 && dest == out && k[0] == k0[0] && k[1] == k0[1] && k[2] == k0[2] && k[3] == k0[3], "space, tab, LF and CR between the symbols are skipped: the decoding state does not change");
+  if (c == (byte)SPEC_B64_ALPHA(v)) {
+    if (i0 < 3) __CPROVER_assert(i == i0 + 1 && dest == out && k[i0] == v, "an alphabet character stores its RFC 4648 value as the next sextet");
+    else {
+      unsigned u = ((unsigned)k0[0] << 18) | ((unsigned)k0[1] << 12) | ((unsigned)k0[2] << 6) | (unsigned)v;
+      __CPROVER_assert(i == 0 && dest == out + 3 && out[0] == (byte)(u >> 16) && out[1] == (byte)(u >> 8) && out[2] == (byte)u, "the 4th sextet completes the group: 3 bytes, big-endian");
+    }
+  }
+  VF_CANARY();
+}
+''',
+    entry=None, unwind=6, floor=4, expect=['assertion'],
+    replay=replay.from_trace('C15/driver.cpp', ['c'], lambda v: ['b64ws', v['c']]),
+    desc='one iteration of the decodeBase64 loop for ANY character and loop state: whitespace (space, tab, LF, CR) leaves the decoding state untouched, an alphabet character adds exactly its value, '
+         'each character is consumed once (termination at the NUL)',
+    functions=['decodeBase64 (loop body)', 'base64_chars_inv', 'myisspace'],
+    planted=[('step', r'myisspace\(\*src\)', '(*src == 32)')],
+)
+UNITS += [b64_step]
+
 # ---------------------------------------------------------------------------------------------
 # percent-encoding: Url::decode(Url::encode(c)) == c for every byte, in both modes (whole bodies on a one-character string)
 HCPP = 'src/Http.cpp'
